@@ -1,3 +1,140 @@
 import BB.Driver.Util
-/-! Placeholder driver for C13 (replaced when the model is built). -/
-def main : IO Unit := BB.Driver.loop (fun (s : Unit) _ => (s, "unimplemented")) ()
+import BB.Model.Completeness
+import BB.Model.CompletenessWire
+/-!
+Line-protocol driver of the C13 completeness-checking model.
+
+    reset <batchSize> <maxMsg> <budget>      new case
+    ac err <code>                            the Action Cache fails
+    ac ok <size> <stdout D> <stderr D>       the Action Cache returns an ActionResult of <size> bytes
+    file <D>                                 append an output file
+    dir <tree D> <root D>                    append an output directory
+    blob <h.s> <readErr|->                   start the blob the CAS serves for Get(<h.s>)
+    ev dir <size> <nfiles> <D>...            append a Directory field to the last blob (files, then directories)
+    ev skip | ev malformed                   append another field / a rejected field
+    missing <h.s>...                         digests FindMissing reports missing
+    fault <callIndex> <code>                 CAS call number <callIndex> of the Get fails with <code>
+    run                                      -> result | error <code>, then the CAS calls: fm[<sorted h.s,...>] get[h.s]
+    visit <hex>                              -> the wire-level visitor model on raw bytes:
+                                                ok|error, then <num>:<offset>:<size> per field the visitor saw
+
+  D ::= -  (nil) | bad | bad:<k> (malformed, <k> names the kind for the harness) | <hash id>.<size>
+-/
+open BB.Driver BB.Completeness
+
+structure S where
+  cfg : Cfg := ⟨1, 0, 0⟩
+  ac : Option (Code ⊕ (Nat × OD × OD)) := none
+  files : List OD := []
+  dirs : List OutDir := []
+  blobs : List (Dg × Blob) := []
+  missing : List Dg := []
+  faults : List (Nat × Code) := []
+
+def splitDot (s : String) : List String :=
+  let rec go (cs : List Char) (cur : List Char) (acc : List String) : List String :=
+    match cs with
+    | [] => (String.ofList cur.reverse :: acc).reverse
+    | c :: rest => if c == '.' then go rest [] (String.ofList cur.reverse :: acc) else go rest (c :: cur) acc
+  go s.toList [] []
+
+def dg? (s : String) : Option Dg :=
+  match splitDot s with
+  | [h, z] => do
+    let h ← nat? h
+    let z ← nat? z
+    pure ⟨h, z⟩
+  | _ => none
+
+/-- `none` = unparsable; `some none` = nil field. -/
+def od? (s : String) : Option OD :=
+  if s == "-" then some none
+  else if s == "bad" then some (some .bad)
+  else if s.toList.take 4 == "bad:".toList then
+    (nat? (String.ofList (s.toList.drop 4))).map fun _ => some .bad
+  else (dg? s).map fun d => some (.good d)
+
+def showDg (d : Dg) : String := s!"{d.hash}.{d.size}"
+
+def dgLe (a b : Dg) : Bool := a.hash < b.hash || (a.hash == b.hash && a.size ≤ b.size)
+
+def insertSorted (d : Dg) : List Dg → List Dg
+  | [] => [d]
+  | x :: xs => if dgLe d x then d :: x :: xs else x :: insertSorted d xs
+
+def sortDgs (l : List Dg) : List Dg := l.foldr insertSorted []
+
+def showCall : Call → String
+  | .fm b _ => "fm[" ++ ",".intercalate ((sortDgs b).map showDg) ++ "]"
+  | .get t _ => "get[" ++ showDg t ++ "]"
+
+def runCase (s : S) : String :=
+  match s.ac with
+  | none => "bad-op"
+  | some ac =>
+    let reply : AcReply := match ac with
+      | .inl c => .err c
+      | .inr (size, so, se) => .ok { size := size, files := s.files, dirs := s.dirs, stdout := so, stderr := se }
+    let (tr, out) := getAR s.cfg reply (scriptCas s.missing s.blobs s.faults)
+    let o := match out with
+      | .result => "result"
+      | .error c => s!"error {c}"
+    " ".intercalate (o :: tr.map showCall)
+
+def addEv (s : S) (e : Ev) : S × String :=
+  match s.blobs.reverse with
+  | [] => (s, "bad-op")
+  | (t, b) :: rest => ({ s with blobs := (((t, { b with evs := b.evs ++ [e] }) :: rest).reverse) }, "ok")
+
+def showVisit (r : List BB.Completeness.Wire.Field × Bool) : String :=
+  " ".intercalate ((if r.2 then "ok" else "error") :: r.1.map fun f => s!"{f.num}:{f.offset}:{f.size}")
+
+def step (s : S) (line : String) : S × String :=
+  match words line with
+  | ["reset", b, m, g] =>
+    match nat? b, nat? m, nat? g with
+    | some b, some m, some g => ({ cfg := ⟨b, m, g⟩ }, "ok")
+    | _, _, _ => (s, "bad-op")
+  | ["ac", "err", c] =>
+    match nat? c with
+    | some c => ({ s with ac := some (.inl c) }, "ok")
+    | none => (s, "bad-op")
+  | ["ac", "ok", z, so, se] =>
+    match nat? z, od? so, od? se with
+    | some z, some so, some se => ({ s with ac := some (.inr (z, so, se)) }, "ok")
+    | _, _, _ => (s, "bad-op")
+  | ["file", d] =>
+    match od? d with
+    | some d => ({ s with files := s.files ++ [d] }, "ok")
+    | none => (s, "bad-op")
+  | ["dir", t, r] =>
+    match od? t, od? r with
+    | some t, some r => ({ s with dirs := s.dirs ++ [⟨t, r⟩] }, "ok")
+    | _, _ => (s, "bad-op")
+  | ["blob", t, e] =>
+    match dg? t, (if e == "-" then some none else (nat? e).map some) with
+    | some t, some e => ({ s with blobs := s.blobs ++ [(t, ⟨[], e⟩)] }, "ok")
+    | _, _ => (s, "bad-op")
+  | "ev" :: "dir" :: z :: n :: ds =>
+    match nat? z, nat? n, ds.mapM od? with
+    | some z, some n, some ds =>
+      if ds.length < n then (s, "bad-op") else addEv s (.dir ⟨z, ds.take n, ds.drop n⟩)
+    | _, _, _ => (s, "bad-op")
+  | ["ev", "skip"] => addEv s .skip
+  | ["ev", "malformed"] => addEv s .malformed
+  | "missing" :: ds =>
+    match ds.mapM dg? with
+    | some ds => ({ s with missing := s.missing ++ ds }, "ok")
+    | none => (s, "bad-op")
+  | ["fault", i, c] =>
+    match nat? i, nat? c with
+    | some i, some c => ({ s with faults := s.faults ++ [(i, c)] }, "ok")
+    | _, _ => (s, "bad-op")
+  | ["run"] => (s, runCase s)
+  | ["visit", h] =>
+    match hexBytes? h with
+    | some bs => (s, showVisit (BB.Completeness.Wire.visit bs))
+    | none => (s, "bad-op")
+  | _ => (s, "bad-op")
+
+def main : IO Unit := loop step {}
